@@ -67,6 +67,10 @@ CHECKS["C17"] = dict(level="model_checking", design="4/C17, 3.7", technique="PG(
     text="spec/PlainGraph.tla mirrors parseModel (nodes in creation order = gonum ids, typed lines drawn from users to relations, skipped TTU parents) and the API as an automaton over (graph, direction); TLC checks ReverseInvolution, PathDuality, ReverseFlipsEveryLine, DrawnFromUsersToRelations in every state of Build ; Reverse^3/4 for the shape-menu universe and seeded random models. The real graph (each model shaped DSL-style and API-style) must show in every state the predicted nodes with ids, the typed-edge multiset, direction, PathExists for ALL pairs of public labels (also checked as transposes between g and its reverse), exact label lookup, and the cycle flags for pure computed cycles / acyclic models; DOT identical over 20-50 builds, Reversed() DOT unique, double reversal restores the DOT text.",
     note="Trusted: TLC, PG(M) as the reading of 'as the rewrite dictates'. DOT text is compared between runs, not predicted. The cycle clause is checked only for the two cases the statement fixes. Cycle flags are read through a verif-tagged accessor.")
 
+CHECKS["C13"] = dict(level="exploration", design="4/C13, 3.7", technique="TLC enumerates call histories and concurrency scenarios from a declared-footprint specification; the harness executes them (warm process vs cold subprocess, deep input snapshots, -race build with start barrier); recorded executions are validated by TLC against the footprints",
+    text="spec/Purity.tla declares for every public operation the footprint 'reads its argument, writes nothing, result a function of the argument'. TLC enumerates all call histories of length <= 2 (thorough: 3, sampled) over 12 operations x 14 pooled objects and all unordered pairs of overlapping calls (shared object or private clones). The harness runs the histories in one warm process with a deep snapshot (proto.Clone + slice identity) around every call and compares each result digest with the same call in a cold subprocess; scenarios start from a barrier in a -race build, race reports are attributed to the scenario. The recorded Begin/Write/End traces (a Write only when observed) are validated by TLC: InputsUnchanged, ResultDependsOnlyOnArgs, NoDataRace.",
+    note="Exploration level: the object pool and the repetition counts bound what is seen; the race detector reports races possible in executed paths, not all schedules. A process-wide weighted-graph builder is part of the pool (a builder must not remember earlier models).")
+
 NOT_YET = "check not built yet in this round (see DESIGN.md section 9 for the order of work)"
 
 
